@@ -21,12 +21,23 @@ MANIFEST = dict(
          "call that finishes has exactly the outcome it has when run alone, and run alone it finishes; "
          "(c20_nested) a glom call made from a callable inside a running call, to any depth, allocates its "
          "own root frame under the default scope and leaves every existing frame untouched, and the outer "
-         "call continues with the inner outcome (value or caught failure) as if it were a constant. Per-run "
+         "call continues with the inner outcome (value or caught failure) as if it were a constant; "
+         "(c20_reentry_frames) the per-call ERROR BOOKKEEPING (CHILD_ERRORS list objects, LAST_CHILD_SCOPE, "
+         "CUR_ERROR, NO_PYFRAME) as heap state: a re-entrant call that is handed the scope of the running "
+         "call (Spec(x).glom(t, scope=scope), glom(t, x, scope=scope)) and rebinds CHILD_ERRORS to a fresh "
+         "list and drops NO_PYFRAME leaves every existing scope map and failed-branch list untouched, for "
+         "any heap, any inner spec (children, Coalesce, tuple chains, further re-entries) -- and the "
+         "counter-examples by decide when it does not (the caller's trace grows a branch; IndexError). Per-run "
          "facts obligation by `decide` (cache access shapes and _MAX_CACHE, the only writes to module/class "
          "state in any function of glom, the fresh dict literals of glom()/_glom, registry methods on the "
-         "evaluation path write only _type_cache); model tied to the code by a deterministic scheduler that "
+         "evaluation path write only _type_cache; Spec.glom and glom() reset, AFTER merging the scope they are "
+         "handed, every bookkeeping key the exception handler of _glom writes or tests and the parent link, "
+         "CHILD_ERRORS to a fresh list, Path to a copy); model tied to the code by a deterministic scheduler that "
          "ENUMERATES all interleavings of 2-3 real glom calls at user-callable granularity, free-running "
-         "threads under a 1e-6 switch interval, and glom-inside-callable nestings to depth 3.",
+         "threads under a 1e-6 switch interval, glom-inside-callable nestings to depth 3, and randomised "
+         "re-entries with access to the running scope whose full rendered error trace is compared with the "
+         "same call where the inner call is made in isolation (and, where the model can express the call, "
+         "with the trace skeleton the Lean model of the bookkeeping renders).",
     note="partial because atomicity of a single dict lookup/store under the GIL and thread-locality of "
          "sys.exc_info() are properties of CPython that are assumed; a theorem cannot exhibit a GIL-level "
          "race, and the enumeration switches threads only at user callables. Registration concurrent with "
@@ -52,14 +63,32 @@ RULE = ('calls are drawn from templates that make leakage visible: dotted string
         'sys.setswitchinterval(1e-6). Each call is first run alone (its shared-state accesses are logged '
         'for the model), caches are emptied, then the calls run under the schedule; outcome = repr of the '
         'value or (exception class, str(exc) with traceback file/line lines removed). non-trivial = at least '
-        'two calls of which one is suspended while another runs and then resumed, or a nesting, or free-running threads; distinct = '
+        'two calls of which one is suspended while another runs and then resumed, or a nesting, or free-running threads; '
+        'RE-ENTRY WITH THE RUNNING SCOPE (mode reent, randomised and type-directed): a custom spec (glomit) or a '
+        'plain callable given S makes an inner glom call handing it no scope / the user variables / dict(scope) / '
+        'the running scope, through Spec(x).glom(t, scope=…) or glom(t, x, scope=…); the inner call returns, fails '
+        'and is caught, or fails and propagates (its spec may read the user variable, may re-enter again); the '
+        'custom spec then evaluates nothing / a spec that succeeds / one that fails / another re-entry as a child '
+        'of the running scope; around it dict siblings, tuple-chain steps before and after, Coalesce alternatives '
+        'and Spec wrappers that succeed or fail. Observed: the outer outcome with the FULL rendered message and '
+        'trace (addresses masked, traceback source lines removed); expected: the same outer call in which every '
+        'inner call is replaced by the outcome it has in isolation (made the same way from a top-level / trivial '
+        'call with the same user variables and position); inner outcomes nested vs isolated are compared too; distinct = '
         'distinct (calls, schedule)')
 TRUSTED = ["CPython: a single dict lookup / store is atomic under the GIL; sys.exc_info() and the Python call "
            "stack are per thread (assumed)",
            "the harness scheduler (threading.Semaphore handshakes; one runnable call at a time between yield points)"]
 ASSUMPTIONS = ['no registration (glom.register / register_op) runs concurrently with glom calls',
                'PATH_STAR = True', 'user callables inside the specs do not share mutable state between calls',
-               'interleavings are enumerated at the granularity of user-callable invocations']
+               'interleavings are enumerated at the granularity of user-callable invocations',
+               'a scope handed explicitly to a re-entrant call is DATA: it carries the caller\'s MODE / MIN_MODE and '
+               'position (scope[Path], the "(at path …)" of messages) besides the user variables. Re-entry points are '
+               'generated under AUTO mode only (a bare str/dict/list/tuple inner spec would mean something else under '
+               'Fill/Match), and the isolated reference of an inner call starts with the same user variables and at '
+               'the same position (glom(..., path=prefix))',
+               'Spec(x).glom(t, scope=<running scope>) evaluates x through the glom entry found in that scope '
+               '(_glom): it is not a glom() call of its own (no trace of its own, exceptions are not wrapped); its '
+               'isolated reference is the same evaluation made from a trivial outer call']
 
 TIMEOUT = 3.0
 
@@ -1360,7 +1389,8 @@ class ReentGen:
                 items.reverse()
             return ['dict', items]
         if k == 'tuple':
-            steps = ([['T', []]] if r.random() < 0.3 else []) + [node]
+            # (a first link that keeps the target; the Coalesce leaves a failed branch behind it)
+            steps = ([r.choice([['T', []], ['coalesce', [['path', 'a.zz'], ['T', []]]]])] if r.random() < 0.4 else []) + [node]
             x = r.random()
             if x < 0.3:
                 steps.append(['y', 1])
